@@ -387,8 +387,29 @@ static std::vector<double> times(GenCtx & g, int K, long N, double t0, double dt
   return ts;
 }
 
-static constexpr double kT0[3] = {0.0, -3.7, 1e3};
-static constexpr double kDt[4] = {1.0, 0.1, 1.0 / 3.0, 7.0};
+// (t0, dt) strata: small, moderate and large start times (a UNIX time stamp with a non-dyadic fraction, 1e12),
+// knot distances from a millisecond to ten seconds; a combination is admitted when the time resolution at
+// t0 is at least a thousand steps per knot interval: ulp(t0) <= 1e-3 dt
+struct Combo
+{
+  double t0, dt;
+};
+static double ulp_of(double x)
+{
+  const double a = std::fabs(x);
+  return a == 0 ? 0.0 : std::nextafter(a, INFINITY) - a;
+}
+static std::vector<Combo> combos()
+{
+  const double stamp = 1.7e9 + 0.123456789;
+  const double t0s[] = {0.0, 1.0, -1.0, -3.7, 1e3, stamp, -stamp, 1e12};
+  const double dts[] = {0.001, 0.01, 0.1, 1.0 / 3.0, 1.0, 7.0, 10.0};
+  std::vector<Combo> cs;
+  for (double dt : dts)
+    for (double t0 : t0s)
+      if (ulp_of(t0) <= 1e-3 * dt) cs.push_back({t0, dt});
+  return cs;
+}
 
 // one "case": base spline with its evaluations, smoothness pairs, moved control points, left factor, constants
 static void gen_case(GenCtx & g, std::vector<Op> & prog, int K, long N, double t0, double dt, int profile, int nrand, int nlocal, int dense, int rot, bool with_const)
@@ -398,14 +419,20 @@ static void gen_case(GenCtx & g, std::vector<Op> & prog, int K, long N, double t
   const long nk = N - K;
   for (double t : times(g, K, N, t0, dt, nrand, dense ? 2 : 1)) add_t(prog, "eval", "A", t);
   // both sides of every knot (ends included)
+  // (when neighbouring doubles are a sizeable fraction of a knot interval apart - large |t0| - the specification
+  // has to evaluate its own curve at both times, which is expensive: fewer pairs then, unless dense)
+  const bool coarse = ulp_of(t0) > dt * 0x1p-40;
   for (long k = 0; k <= nk; ++k) {
     const double tk = t0 + static_cast<double>(k) * dt;
     const double w  = std::max({std::fabs(tk), std::fabs(t0), std::fabs(static_cast<double>(k) * dt)}) * 0x1p-52;
+    const bool special = k <= 1 || k >= nk - 1 || k == nk / 2 || k % 4 == 0;
+    if (coarse && !dense && !special) continue;
     add_t(prog, "smooth", "A", ulps(tk, -1), ulps(tk, 1));
     if (w > 0) {
       add_t(prog, "smooth", "A", tk - 2 * w, tk + 2 * w);
-      add_t(prog, "smooth", "A", tk - 6 * w, tk + 6 * w);
+      if (!coarse || dense) add_t(prog, "smooth", "A", tk - 6 * w, tk + 6 * w);
     }
+    if (coarse && !dense) continue;
     if (k % 2 == 0) add_t(prog, "smooth", "A", ulps(tk, -1), tk);
     else add_t(prog, "smooth", "A", tk, ulps(tk, 1));
   }
@@ -551,6 +578,7 @@ static int main_(int argc, char ** argv)
   const int maxn          = std::atoi(arg(argc, argv, "--maxn", "12").c_str());
   const int first         = std::atoi(arg(argc, argv, "--first", "0").c_str());
   const int dense         = std::atoi(arg(argc, argv, "--dense", "0").c_str());
+  const int combo0        = std::atoi(arg(argc, argv, "--combo0", "0").c_str());
   c.gj                    = Dsc::json();
   if (!c.sink.open(out)) return 2;
   current_sink() = &c.sink;
@@ -576,10 +604,12 @@ static int main_(int argc, char ** argv)
       case 2: N = 30; break;
       default: N = K + 2; break;
       }
-      // (t0, dt): all twelve combinations in turn, shifted by degree and group so that a tier covers all
-      const int combo  = (cs + 5 * K + VH_GROUP) % 12;
-      const double t0  = kT0[combo % 3];
-      const double dt  = kDt[combo / 3];
+      // (t0, dt): the admissible combinations in turn; the driver gives every (group, degree) its own offset
+      // so that a tier runs through all of them
+      static const std::vector<Combo> cmb = combos();
+      const Combo & co = cmb[static_cast<std::size_t>(combo0 + (cs - first)) % cmb.size()];
+      const double t0  = co.t0;
+      const double dt  = co.dt;
       const int profile = (cs + K) % 4;
       gen_case(g, prog, K, N, t0, dt, profile, nrand, nlocal, dense, /*rot=*/cs, /*with_const=*/true);
     }
